@@ -160,7 +160,7 @@ theorem engMap_incr_bool_refused (st : St) (g : UnF) (mt : List String) (a r : D
   have hbb : (a.dt == "b") = true := by simp [hb]
   refine ⟨"Unsupported type for Add", ?_⟩
   unfold engMap mapKern
-  simp only [hfo_incr _ _ _ _ _ _ hr, hts', hia, hir, show mt.contains a.dt = true by simpa using hmt, h1, h2, hbb,
+  simp only [hfo_incr _ _ _ _ _ _ hr, hts', hia, hir, hr.sameOrd, show mt.contains a.dt = true by simpa using hmt, h1, h2, hbb,
     bind, Except.bind, pure, Except.pure, throwErr,
     Bool.not_true, Bool.false_eq_true, if_false, Bool.or_false, Bool.not_false, if_true]
 
